@@ -60,12 +60,7 @@ theorem gLoop_nil (steps : List Step) (rlen : Nat) (e : Event) (ns : NsMap) (vs 
 
 /-- the value reported when the last real step matched -/
 def lastVal (steps : List Step) (e : Event) (ns : NsMap) : Val :=
-  match steps.getLast? with
-  | some last =>
-      if last.axis == .attribute then
-        (if (last.test.apply e ns).truthy then last.test.apply e ns else .none)
-      else .bool true
-  | none => .bool true
+  if (lastResult steps e ns).truthy then lastResult steps e ns else .none
 
 /-- one candidate position whose step is the last real step of the path -/
 theorem gStep_one (steps : List Step) (ns : NsMap) (vs : Vars) (st : GState) (e : Event)
@@ -90,8 +85,7 @@ theorem gStep_one (steps : List Step) (ns : NsMap) (vs : Vars) (st : GState) (e 
   by_cases hd : isDescLike sx.axis = true <;> by_cases hmt : sx.test.matches e ns = true <;>
     by_cases hp : (sPreds e ns vs sx.preds 0 (Store.get st.store c)).1 = true <;>
     simp [hd, hmt, hp, lastVal] <;>
-    (cases hl : steps.getLast? <;> simp [hl]) <;>
-    (try (split <;> simp_all [Val.truthy])) <;> (try simp [Val.truthy])
+    (split <;> simp_all)
 
 theorem gStep_empty (steps : List Step) (ns : NsMap) (vs : Vars) (st : GState) (e : Event)
     (rest : List (List GPos)) (hstack : st.stack = [] :: rest) (he : e.isEnd = false)
@@ -362,12 +356,12 @@ theorem attrApply_none_or_truthy (t : NodeTest) (h : t.attrFlag = true) (e : Eve
 
 theorem lastVal_attr (pre : List Step) (s : Step) (h : s.axis = .attribute) (hf : s.test.attrFlag = true)
     (e : Event) (ns : NsMap) : lastVal (pre ++ [s]) e ns = sVal s e ns := by
-  simp [lastVal, sVal, h, attrApply_none_or_truthy s.test hf e ns]
+  simp [lastVal, lastResult, sVal, h, attrApply_none_or_truthy s.test hf e ns]
 
 theorem lastVal_nonattr (pre : List Step) (s : Step) (h : s.axis ≠ .attribute)
     (e : Event) (ns : NsMap) : lastVal (pre ++ [s]) e ns = sVal s e ns := by
   have : (s.axis == Axis.attribute) = false := by simpa using h
-  simp [lastVal, sVal, this]
+  simp [lastVal, lastResult, sVal, this, Val.truthy]
 
 theorem runOne_cons {σ : Type} (step : σ → Event → σ × Val) (s : σ) (e : Event) (es : List Event) :
     runOne step s (e :: es) = ((step s e).2 :: (runOne step (step s e).1 es).1, (runOne step (step s e).1 es).2) := rfl
@@ -402,7 +396,7 @@ theorem single_eq_generic_run (s : Step) (ic : Bool) (ns : NsMap) (vs : Vars)
         (by simp [realLen]) rfl rfl rfl rfl rfl (by intro d; simp [sOutside])
         (fun e => by
           have : (s.axis == Axis.attribute) = false := by simpa using ha
-          simp [lastVal, sVal, this])).flatten _ hroot 0 (Nat.le_refl _) _ _ hinit).1
+          simp [lastVal, lastResult, sVal, this, Val.truthy])).flatten _ hroot 0 (Nat.le_refl _) _ _ hinit).1
   | false =>
     cases hax : s.axis with
     | descendantOrSelf =>
